@@ -60,6 +60,7 @@ type observation struct {
 	Answered      int           `json:"answered"`
 	Probes        []string      `json:"size_probes,omitempty"`
 	FaultDNSCheck int           `json:"dnscheck_queries_under_failing_backend,omitempty"`
+	DDRProbes     int           `json:"ddr_probes,omitempty"`
 	Restart       *restartInfo  `json:"restart,omitempty"`
 	ConnLimit     *limitResult  `json:"connection_limit_script,omitempty"`
 	StartMS       int64         `json:"start_ms"`
@@ -236,6 +237,37 @@ func rateTouched(ms []mutation) bool {
 		}
 	}
 	return false
+}
+
+// ddrExpected: the first server group has DDR enabled and public records, so
+// (doc/configuration.md) DDR queries of unrecognised clients are processed and
+// answered from those records.
+func ddrExpected(tree interface{}) bool {
+	en, _ := treeGet(tree, cfgPath{key("server_groups"), idx(0), key("ddr"), key("enabled")})
+	pr, _ := treeGet(tree, cfgPath{key("server_groups"), idx(0), key("ddr"), key("public_records")})
+	m, isMap := pr.(yaml.MapSlice)
+	if b, ok := en.(bool); !ok || !b || !isMap || len(m) == 0 {
+		return false
+	}
+	// every record must keep at least one port
+	for _, it := range m {
+		rec, ok := it.Value.(yaml.MapSlice)
+		if !ok {
+			return false
+		}
+		ports := 0
+		for _, k := range []string{"https_port", "tls_port", "quic_port"} {
+			if v, has := mapGet(rec, k); has {
+				if n, isInt := v.(int); isInt && n > 0 {
+					ports++
+				}
+			}
+		}
+		if ports == 0 {
+			return false
+		}
+	}
+	return true
 }
 
 // backendMatrix: the case belongs to the backend matrix (it mutates the
@@ -559,6 +591,7 @@ func (h *harness) attempt(ms []mutation, tag string) (obs *observation, collided
 	if v, ok := treeGet(tree, cfgPath{key("check"), key("kv"), key("type")}); ok && fmt.Sprint(v) == "cache" {
 		sp.DNSCheckOK = true
 	}
+	sp.DDRExpected = ddrExpected(tree)
 	sp.ProfileDev = restartHistory(ms)
 	sp.KVFault = kvFault(ms)
 	sp.DNSCheckAll = backendMatrix(ms)
@@ -591,6 +624,10 @@ func (h *harness) attempt(ms []mutation, tag string) (obs *observation, collided
 		obs.Answered += g.Answered
 		if g.Group == "dnscheck-failing-backend" {
 			obs.FaultDNSCheck += g.Sent
+		}
+		if g.Group == "ddr" && g.Answered > 0 {
+			obs.DDRProbes++
+			continue
 		}
 		if g.Probe != "" && g.Require == "all" {
 			obs.Probes = append(obs.Probes, g.Probe)
@@ -741,6 +778,14 @@ func (h *harness) classifyEarlyExit(obs *observation, ms []mutation) {
 		obs.Verdict, obs.Class, obs.What = "violation", "startup-panic", "start-up panicked outside the configuration-error path (after validation passed)"
 	default:
 		how, ok := namesProperty(msg, ms, obs.Config)
+		if ok && len(ms) > 0 {
+			h.r.Bucket("rejection_paths_checked", 1)
+			if wrong, sibling := pathContradicted(msg, ms, h.baseLoc.Tree); wrong {
+				obs.Verdict, obs.Class = "violation", "rejected-misnamed"
+				obs.What = "configuration rejected, but the reported path names the sibling section " + sibling + ", which is valid in the file"
+				return
+			}
+		}
 		if ok || len(ms) == 0 {
 			obs.Verdict, obs.NamedBy = "rejected", how
 			return
@@ -752,6 +797,96 @@ func (h *harness) classifyEarlyExit(obs *observation, ms []mutation) {
 		}
 		obs.Verdict, obs.Class, obs.What = "violation", "rejected-unnamed", "configuration rejected, but the message does not name the offending property"
 	}
+}
+
+var (
+	reIdentSeg = regexp.MustCompile(`^[a-z][a-z0-9_]*$`)
+	reIndexSeg = regexp.MustCompile(`^at index (\d+)$`)
+)
+
+// pathContradicted compares the path that a rejection message gives (its
+// colon-separated identifier segments, e.g. "ratelimit: ipv6: subnet_key_len:")
+// with the path of the mutated property.  The message contradicts the path
+// when, at the level reached so far, it names a key that exists in the base
+// file next to the expected component but is a different one (a sibling
+// section), or a different list index, and that key is not a documented
+// cross-field participant.  With several mutations the message only has to be
+// consistent with one of them.
+func pathContradicted(msg string, ms []mutation, base interface{}) (wrong bool, sibling string) {
+	line := strings.TrimPrefix(strings.SplitN(msg, "\n", 2)[0], "panic: ")
+	line = strings.TrimSuffix(line, " [recovered]")
+	var segs []string
+	for _, sg := range strings.Split(line, ": ") {
+		segs = append(segs, strings.TrimSpace(sg))
+	}
+	for _, m := range ms {
+		if m.Kind == "fault" || m.Kind == "history" {
+			continue
+		}
+		bad := contradicts(segs, m, base)
+		if bad == "" {
+			return false, ""
+		}
+		sibling = bad
+	}
+	return sibling != "", sibling
+}
+
+func contradicts(segs []string, m mutation, base interface{}) (sibling string) {
+	p := m.Path
+	pos := 0 // next expected component
+	allowed := map[string]bool{}
+	for _, a := range participants[p.lastKey()] {
+		allowed[a] = true
+	}
+	// skipNonIdent: record names and similar components never appear as path
+	// segments of a message.
+	skip := func() {
+		for pos < len(p) && !p[pos].Is && !reIdentSeg.MatchString(p[pos].Key) {
+			pos++
+		}
+	}
+	for _, sg := range segs {
+		skip()
+		if pos >= len(p) {
+			return ""
+		}
+		if im := reIndexSeg.FindStringSubmatch(sg); im != nil {
+			if p[pos].Is {
+				if atoiDefault(im[1], -1) != p[pos].Idx && m.Kind != "id" {
+					return "index " + im[1]
+				}
+				pos++
+			}
+			continue
+		}
+		if !reIdentSeg.MatchString(sg) {
+			continue
+		}
+		// Does the segment name the expected component or a later one?
+		matched := false
+		for q := pos; q < len(p); q++ {
+			if !p[q].Is && p[q].Key == sg {
+				pos = q + 1
+				matched = true
+				break
+			}
+		}
+		if matched || p[pos].Is || allowed[sg] {
+			continue
+		}
+		// A sibling of the expected component in the base file?
+		parent, ok := treeGet(base, p[:pos])
+		if !ok {
+			continue
+		}
+		if pm, isMap := parent.(yaml.MapSlice); isMap {
+			if _, exists := mapGet(pm, sg); exists {
+				return sg
+			}
+		}
+	}
+	return ""
 }
 
 // isLimitEffect: a positive but tiny limit (1ns, 1B) made a start-up I/O
@@ -772,8 +907,11 @@ func isLimitEffect(msg string, ms []mutation) bool {
 }
 
 func (h *harness) classifyAccepted(obs *observation, died, termTimedOut, timeTouched bool) {
-	var failed, sizeBelow *groupResult
+	var failed, sizeBelow, ddrBad *groupResult
 	for i := range obs.Groups {
+		if obs.Groups[i].DDRNotServed && ddrBad == nil {
+			ddrBad = &obs.Groups[i]
+		}
 		if !obs.Groups[i].ok() && failed == nil {
 			failed = &obs.Groups[i]
 		}
@@ -802,6 +940,9 @@ func (h *harness) classifyAccepted(obs *observation, died, termTimedOut, timeTou
 			cl.Stop, cl.Resume, cl.L, cl.Kept, cl.Guaranteed, cl.Served, cl.Starved, cl.FillLost, cl.EarlyServe)
 	case obs.ConnLimit != nil && obs.ConnLimit.Ambiguous != "":
 		obs.Verdict, obs.Class, obs.What = "ambiguous", "connlimit-script", obs.ConnLimit.Ambiguous
+	case ddrBad != nil:
+		obs.Verdict, obs.Class = "violation", "ddr-not-served"
+		obs.What = "DDR is enabled with public records, but the DDR query is not answered from them: " + ddrBad.Probe
 	case sizeBelow != nil:
 		obs.Verdict, obs.Class = "violation", "effective-udp-size-below-configured"
 		obs.What = "a UDP answer that fits the advertised EDNS buffer and the configured dns.max_udp_response_size came back truncated: " + sizeBelow.Probe
@@ -951,6 +1092,7 @@ func (h *harness) account(cr caseResult, found *findings) (class string) {
 	r.Bucket("queries_answered", int64(obs.Answered))
 	r.Bucket("effective_size_probes_applied", int64(len(obs.Probes)))
 	r.Bucket("dnscheck_queries_under_failing_backend", int64(obs.FaultDNSCheck))
+	r.Bucket("ddr_probes_answered", int64(obs.DDRProbes))
 	if ri := obs.Restart; ri != nil && obs.Verdict != "ambiguous" {
 		r.Bucket("restart_cases_decided", 1)
 		if ri.CacheFileBytes > 0 {
@@ -1084,6 +1226,7 @@ func TestCheck(t *testing.T) {
 	r.Assume("connection_limit.stop/resume of 0 or 1 is below the documented minimum (more than the number of bound addresses): stream transports are then not required to answer")
 	r.Assume("effective-value probe: a UDP answer of known size must be complete when both the advertised EDNS buffer and dns.max_udp_response_size as written in the file exceed it by 64 bytes; skipped when socket buffer sizes or 1ns durations are mutated")
 	r.Assume("restart cases: the stub backend delivers its profile (one device recognised by linked IP 127.0.2.1, custom rate limit) on full synchronisations only; the second life of the process must have got it from the profile cache, which is checked by the device ID in the query-log records written after the restart")
+	r.Assume("a rejection message that gives a path must be consistent with the mutated property: naming a sibling key of the base file at the level reached (ipv4 for an ipv6 mutation) or another list index is rejected-misnamed, unless that key is a documented cross-field participant")
 	r.Assume("a failing key-value backend is a fault of the environment: the configuration is still accepted, the DNS-check query must still be answered and nothing may panic")
 	r.Assume("connection limit: sockets that are accepting count as active (documented); when stop <= listeners+3 and resume < listeners the ordinary stream groups are not required, and the dedicated script (which keeps its connections open and so controls the count) requires min(listeners used, stop-resume) listeners to serve after the count has fallen to resume")
 	r.Assume("an unanswered query is retried alone (3 s, then 8 s) and every violation is confirmed by a second, separate execution of the same file")
@@ -1127,6 +1270,7 @@ func TestCheck(t *testing.T) {
 	spellFs := enumSpellingFields(fields)
 	spellFs = append(spellFs, structuralFields(h.baseLoc.Tree)...) // for C20_ONLY / replay look-up
 	spellFs = append(spellFs, listFields(h.baseLoc.Tree)...)
+	spellFs = append(spellFs, addrFamilyFields(h.baseLoc.Tree)...)
 	for _, ms := range append(backendMatrixCases(h.baseLoc.Tree), restartCases(fields)...) {
 		for _, m := range ms {
 			if m.Kind == "bool" || m.Kind == "fault" || m.Kind == "history" {
@@ -1241,6 +1385,10 @@ func TestCheck(t *testing.T) {
 		}
 	}
 	r.Bucket("cases_structural_server_groups", int64(nStruct))
+	for _, f := range addrFamilyFields(h.baseLoc.Tree) {
+		singles = append(singles, caseSpec{Stream: "addr-family", Idx: len(singles), Muts: []mutation{{Path: f.Path, Kind: f.Kind, Value: f.Values[0]}}})
+		r.Bucket("cases_addr_family", 1)
+	}
 	listFs := listFields(h.baseLoc.Tree)
 	nList := 0
 	for _, f := range listFs {
@@ -1368,6 +1516,9 @@ func TestCheck(t *testing.T) {
 	r.Require("queries_answered", 10000)
 	r.Require("effective_size_probes_applied", 100)
 	r.Require("connlimit_scripts_run", 6)
+	r.Require("rejection_paths_checked", 200)
+	r.Require("cases_addr_family", 4)
+	r.Require("ddr_probes_answered", 100)
 	r.Require("cases_restart", 2)
 	r.Require("restarts_with_profile_cache", 2)
 	r.Require("profile_device_queries_after_restart", 8)
